@@ -123,8 +123,17 @@ func (p *proxyConn) readRequest() (*http.Request, error) {
 	// read the next request. This prevents a ReadHeaderTimeout or
 	// ReadTimeout from starting until the first bytes of the next request
 	// have been received.
-	if _, err := p.brw.Peek(1); err != nil {
-		return nil, err
+	// An empty line before the request line is ignored (RFC 9112, 2.2): old clients send one after
+	// the body of a POST, and it is not the beginning of a request - the wait goes on.
+	for skipped := 0; ; skipped++ {
+		b, err := p.brw.Peek(1)
+		if err != nil {
+			return nil, err
+		}
+		if (b[0] != '\r' && b[0] != '\n') || skipped == 4 {
+			break
+		}
+		p.brw.Discard(1) //nolint:errcheck // one byte is buffered
 	}
 
 	var (
